@@ -181,11 +181,8 @@ func (m *Map) Reverse(seqno uint16) (bool, uint16, uint16) {
 	m.mu.Lock()
 	defer m.mu.Unlock()
 
-	if m.delta == 0 && m.entries == nil {
-		return true, seqno, 0
-	}
 	if m.entries == nil {
-		if m.delta == 0 {
+		if m.delta == 0 && m.recent(seqno) {
 			return true, seqno, 0
 		}
 		return false, 0, 0
@@ -196,9 +193,11 @@ func (m *Map) Reverse(seqno uint16) (bool, uint16, uint16) {
 		f := m.entries[i].first + m.entries[i].delta
 		if compare(seqno, f) >= 0 {
 			if compare(seqno, f+m.entries[i].count) < 0 {
-				return true,
-					seqno - m.entries[i].delta,
-					m.entries[i].pidDelta
+				s := seqno - m.entries[i].delta
+				if !m.recent(s) {
+					return false, 0, 0
+				}
+				return true, s, m.entries[i].pidDelta
 			}
 			return false, 0, 0
 		}
@@ -212,6 +211,15 @@ func (m *Map) Reverse(seqno uint16) (bool, uint16, uint16) {
 		}
 	}
 	return false, 0, 0
+}
+
+// recent returns true if seqno is the number of a packet that Map would
+// treat as a late copy rather than as the start of a new sequence.  A
+// packet that is retransmitted goes through Map again, and must not make
+// it restart.  Called locked.
+func (m *Map) recent(seqno uint16) bool {
+	return m.started && compare(seqno, m.next) < 0 &&
+		uint16(m.next-seqno) <= 8*1024
 }
 
 // Drop attempts to record a dropped packet.  It returns true if the
